@@ -173,7 +173,10 @@ def gen_script(rng, sites, opts, length=None):
             script.append({'op': 'play', 'k': 'data%d' % rng.randint(0, 1), 'x': x})
             vars_.append(x)
         elif c < 0.95 and opts.get('control'):
-            script.append({'op': rng.choice(['force', 'discard'])})
+            st = {'op': rng.choice(['force', 'discard'])}
+            if rng.random() < 0.3:
+                st['thread'] = True          # asked for from a helper thread the operation starts and joins
+            script.append(st)
     c = rng.random()
     if c < 0.7:
         script.append({'op': 'ret', 'e': {'t': [{'v': v} for v in vars_] + [const(rand_value(rng, 1))]}})
@@ -268,6 +271,8 @@ def gen_history(rng, opts):
                    'draws': [rng.choice([[0, 1], [1, 4], [1, 2], [3, 4], [1, 1]]) for _ in range(2)],
                    'clock': [t0 + 1, t0 + 1 + rng.randint(0, 5), t0 + 8, t0 + 9],
                    'saveFails': bool(opts.get('faults')) and rng.random() < 0.1}
+            if rng.random() < 0.12:
+                run['inHandler'] = rng.choice(['RuntimeError', 'RuntimeError', 'KeyboardInterrupt'])
             if classes[cname]['hasExtractor']:
                 run['extractor'] = rng.choice([{'ok': [['user', rand_value(rng, 1)], ['n', {'i': '3'}]]}, {'ok': []}, 'raise',
                                                'junk5', 'junkpairs', 'junknone'])
